@@ -19,6 +19,7 @@ type Clause struct {
 	Expr ast.Expr
 	Loop int
 	Name string // optional label
+	Assumed bool // "assumed-ensures": available to callers, not proved from the body (a stated assumption about a dependency)
 	File string
 	Line int
 }
@@ -528,10 +529,18 @@ func (w *World) parseBlocks(ls []rawLine, pkgPath string) error {
 			cur.Inline = true
 		case "havoc":
 			cur.Havoc = rest
-		case "requires", "ensures", "domain":
-			cl, err := mk(word, rest)
+		case "requires", "ensures", "domain", "assumed-ensures":
+			kind := word
+			if word == "assumed-ensures" {
+				kind = "ensures"
+			}
+			cl, err := mk(kind, rest)
 			if err != nil {
 				return fail2("%v", err)
+			}
+			if word == "assumed-ensures" {
+				cl.Assumed = true
+				cur.Ensures = append(cur.Ensures, cl)
 			}
 			switch word {
 			case "requires":
